@@ -31,6 +31,11 @@ def log(*a):
     sys.stderr.flush()
 
 
+# race build: no exit code for reports (they arrive as violations through the result
+# files), and the same race is reported every time it happens (needed for shrinking)
+RACE_OPTS = "exitcode=0 suppress_equal_stacks=0 suppress_equal_addresses=0"
+
+
 def worker_env(extra):
     e = dict(os.environ)
     e.update({"GOMAXPROCS": "1", "GODEBUG": "asyncpreemptoff=1,randautoseed=0,randseednop=0", "GOTRACEBACK": "single"})
@@ -92,7 +97,7 @@ def main():
             "VERIF_SWEEP": tspec.get("sweep", ""),
         })
         if race:
-            env["GOMAXPROCS"] = "4"
+            env["GORACE"] = RACE_OPTS
         lf = open(os.path.join(work, "w%d.log" % w), "w")
         p = subprocess.Popen([binp, "-test.run", "^TestSim$", "-test.timeout", "0"], env=env, stdout=lf, stderr=subprocess.STDOUT, cwd=work)
         procs.append((p, lf))
@@ -106,6 +111,11 @@ def main():
             rc = -9
             trouble.append("worker %d exceeded the watchdog (%.0fs)" % (w, hard))
         lf.close()
+        if rc == 1 and race and "race detected during execution of test" in open(os.path.join(work, "w%d.log" % w)).read():
+            # the testing package fails a test during which the detector reported anything,
+            # including the harness' own unsynchronised bookkeeping; reports on core code
+            # are in the result files
+            rc = 0
         if rc != 0:
             tail = open(os.path.join(work, "w%d.log" % w)).read()[-3000:]
             trouble.append("worker %d exited with %s:\n%s" % (w, rc, tail))
@@ -132,7 +142,7 @@ def main():
                           "VERIF_SEED_LIST": seeds, "VERIF_OUT": os.path.join(work, "det.jsonl"), "VERIF_REPLAY_DIR": work,
                           "VERIF_SWEEP": tspec.get("sweep", ""), "VERIF_MAX_VIOL": 0})
         if race:
-            env["GOMAXPROCS"] = "4"
+            env["GORACE"] = RACE_OPTS
         rc = subprocess.run([binp, "-test.run", "^TestSim$", "-test.timeout", "0"], env=env, stdout=subprocess.DEVNULL, stderr=subprocess.DEVNULL, cwd=work).returncode
         again = {}
         if os.path.exists(os.path.join(work, "det.jsonl")):
@@ -146,7 +156,7 @@ def main():
             det_checked += 1
             if first.get(s) != hs:
                 det_bad += 1
-        if rc != 0:
+        if rc != 0 and not (race and rc == 1 and len(again) == len(sample)):
             trouble.append("determinism re-run process failed (%s)" % rc)
         # A rare residual divergence (Go's random choice among ready select cases, time-based
         # preemption in a slow segment) is reported in the evidence but does not condemn the
@@ -175,7 +185,7 @@ def main():
             outp = os.path.join(work, "replay-out.json")
             env = worker_env({"VERIF_MODE": "replay", "VERIF_REPLAY": rp, "VERIF_OUT": outp})
             if race:
-                env["GOMAXPROCS"] = "4"
+                env["GORACE"] = RACE_OPTS
             ok = same = False
             for _attempt in range(3):
                 subprocess.run([binp, "-test.run", "^TestSim$", "-test.timeout", "0"], env=env, stdout=subprocess.DEVNULL, stderr=subprocess.DEVNULL, cwd=work)
@@ -262,7 +272,10 @@ def main():
         ev["coverage"]["explanation"] = spec.get("explanation", spec["rule"])
     os.makedirs(os.path.join(VERIF, "evidence"), exist_ok=True)
     json.dump(ev, open(os.path.join(VERIF, "evidence", prop + ".json"), "w"), indent=1)
-    shutil.rmtree(work, ignore_errors=True)
+    if trouble and os.environ.get("VERIF_KEEP_WORK"):
+        sys.stderr.write("work directory kept: %s\n" % work)
+    else:
+        shutil.rmtree(work, ignore_errors=True)
     for ln in lines:
         print(ln)
     print("%s %s: runs=%d nontrivial_distinct=%d states=%d sim_s=%.0f faults=%s det=%d/%d wall=%.0fs" % (
